@@ -14,7 +14,7 @@ BOUNDS = {'quick': 'N<=4 atoms, <=2 terms of one kind or 1+1 of two kinds, |D|<=
 OUTSIDE = ['more atoms/terms than the bound', 'duplicate indices in the deletion list (property: distinct indices)',
            'boolean-mask or slice deletion']
 ASSUMPTIONS = ['deleted indices pairwise distinct and in [0,N)', 'term end points in [0,N) (not necessarily distinct)',
-               'state constructed directly (Atoms.__new__ + arrays), type tables wide enough for all ids']
+               'state constructed through the empty constructor with every array replaced, type tables wide enough for all ids']
 STUBS = []
 OPTS = {'timeout_ms': 20000}
 
